@@ -316,7 +316,6 @@ uint64_t cmb_event_current(void)
 bool cmb_event_cancel(const uint64_t handle)
 {
     cmb_assert_release(event_queue != NULL);
-    cmb_assert_release(cmi_hashheap_count(event_queue) > 0u);
     if (!cmi_hashheap_is_enqueued(event_queue, handle)) {
         return false;
     }
